@@ -137,8 +137,15 @@ func c15Fuzz(c *Ctx, entry, input, op string) {
 		for _, mode := range []string{daemon.ModeENIMultiIP, daemon.ModeENIOnly} { // the builder rejects any other mode at start-up
 			k8s.VerifConvertPod(mode, true, sets.New("statefulset"), pod)
 		}
-		_, _ = controlplane.ParsePodNetworksFromAnnotation(pod)
-		_, _ = controlplane.ParsePodNetworksFromRequest(anno)
+		// the callers (admission webhook, pod controller) use the result right after the nil-error check
+		if pn, err := controlplane.ParsePodNetworksFromAnnotation(pod); err == nil {
+			_ = len(pn.PodNetworks)
+		}
+		if refs, err := controlplane.ParsePodNetworksFromRequest(anno); err == nil {
+			for _, ref := range refs {
+				_ = ref.Network
+			}
+		}
 	case "numa":
 		hints := podeni.VerifPodNumaHints(map[string]string{"cpuSet": input})
 		for cards := 0; cards <= 4; cards++ {
